@@ -110,11 +110,13 @@ class Flow:
                 if not any(child is g for g in parent.generators):
                     for g in parent.generators:
                         conds.extend((c, True) for c in g.ifs)
+                        conds.extend((c, True) for c in self._filter_of_source(chain[-1], g.iter, g.target))
                 else:
                     for g in parent.generators:
                         if g is child:
                             break
                         conds.extend((c, True) for c in g.ifs)
+                        conds.extend((c, True) for c in self._filter_of_source(chain[-1], g.iter, g.target))
             elif isinstance(parent, ast.comprehension):
                 if child in parent.ifs:
                     idx = parent.ifs.index(child)
@@ -128,6 +130,9 @@ class Flow:
             elif isinstance(parent, ast.While):
                 if child in parent.body:
                     conds.append((parent.test, True))
+            elif isinstance(parent, ast.For):
+                if child in parent.body:
+                    conds.extend((c, True) for c in self._filter_of_source(chain[-1], parent.iter, parent.target))
             # earlier siblings that leave the block
             for _nm, blk in _blocks_of(parent):
                 if child in blk:
@@ -146,6 +151,49 @@ class Flow:
                             if not (names_in(prev.test) & assigned_names(between)):
                                 conds.append((prev.test, True))
         return conds
+
+    def _filter_of_source(self, fnnode: ast.AST, it: ast.expr, target: ast.expr) -> List[ast.expr]:
+        """`for v in N` / `.. for v in N` where N is a local bound exactly once, to `[w for w in X if C(w)]` (the elements
+        themselves, filtered) and never touched otherwise: C(v) holds for every v.  The conditions, with w renamed to v."""
+        if not (isinstance(it, ast.Name) and isinstance(target, ast.Name) and isinstance(fnnode, (ast.FunctionDef, ast.AsyncFunctionDef))):
+            return []
+        cache = self.__dict__.setdefault('_filter_cache', {})
+        key = (id(fnnode), it.id, target.id)
+        if key in cache:
+            return cache[key]
+        cache[key] = []
+        stores = [n for n in ast.walk(fnnode) if isinstance(n, ast.Name) and n.id == it.id and isinstance(n.ctx, (ast.Store, ast.Del))]
+        if it.id in [a.arg for a in fnnode.args.posonlyargs + fnnode.args.args + fnnode.args.kwonlyargs] or len(stores) != 1:
+            return []
+        asg = self.prog.parent(stores[0])
+        if not (isinstance(asg, ast.Assign) and len(asg.targets) == 1 and asg.targets[0] is stores[0] and isinstance(asg.value, ast.ListComp)):
+            return []
+        lc = asg.value
+        if len(lc.generators) != 1 or not isinstance(lc.generators[0].target, ast.Name) or not isinstance(lc.elt, ast.Name) or \
+                lc.elt.id != lc.generators[0].target.id or not lc.generators[0].ifs:
+            return []
+        # the list is only read afterwards
+        for n in ast.walk(fnnode):
+            if isinstance(n, ast.Name) and n.id == it.id and isinstance(n.ctx, ast.Load):
+                par = self.prog.parent(n)
+                if isinstance(par, ast.Attribute) and par.attr in ('append', 'extend', 'insert', 'pop', 'remove', 'clear', 'sort', 'reverse',
+                                                                  '__setitem__', '__delitem__', '__iadd__'):
+                    return []
+                if isinstance(par, ast.Subscript) and isinstance(par.ctx, (ast.Store, ast.Del)):
+                    return []
+                if isinstance(par, ast.AugAssign) and par.target is n:
+                    return []
+        import copy
+        w = lc.elt.id
+        out = []
+        for c in lc.generators[0].ifs:
+            c2 = copy.deepcopy(c)
+            for x in ast.walk(c2):
+                if isinstance(x, ast.Name) and x.id == w:
+                    x.id = target.id
+            out.append(c2)
+        cache[key] = out
+        return out
 
     def dominating_stmts(self, node: ast.AST) -> List[ast.stmt]:
         """Statements executed on every path before `node` (earlier siblings at each nesting level,
